@@ -1,8 +1,8 @@
 --------------------------- MODULE MC_RelayRevoke ---------------------------
 (* Model-checking / schedule-generation instances of RelayRevoke.
-   t, t2: connections of endpoint A (t2 is a duplicate connection of the same endpoint);
+   t, t2, t3: connections of endpoint A (duplicates of the same endpoint);
    b: bystander connection of endpoint B. *)
 EXTENDS RelayRevoke
-MC_KeyOf == [c \in Conns |-> IF c \in {"t", "t2"} THEN "A" ELSE "B"]
-MC_Order == IF "t2" \in Conns THEN <<"t", "t2", "b">> ELSE <<"t", "b">>
+MC_KeyOf == [c \in Conns |-> IF c \in {"t", "t2", "t3"} THEN "A" ELSE "B"]
+MC_Order == SelectSeq(<<"t", "t2", "t3", "b">>, LAMBDA c : c \in Conns)
 =============================================================================
